@@ -127,7 +127,7 @@ def gen_case(rng, params, index):
                     if k == 0:
                         steps.append({"op": "WRITE", "path": o, "content": "stale foreign content %d\n" % rng.randint(0, 99)})
                     elif k == 1:
-                        steps.append({"op": "LINKOUT", "path": o, "kind": rng.choice(["symlink", "hardlink"]), "victim": "victims/v%d.txt" % rng.randint(0, 9)})
+                        steps.append({"op": "LINKOUT", "path": o, "kind": rng.choice(["symlink", "hardlink", "symlink", "hardlink", "dir"]), "victim": "victims/v%d.txt" % rng.randint(0, 9)})
                     else:
                         steps.append({"op": "WRITE", "path": posixpath.join(posixpath.dirname(o), ".tmpAb3dE9"), "content": "leftover"})
         first = False
@@ -232,10 +232,14 @@ def run_case(case, env):
             v.update(kw)
             viol.append(v)
 
+    prev_gen, prev_exit = None, None
     for si, step in enumerate(case["steps"]):
         if step["op"] != "GEN":
             sb.apply(step)
+            prev_gen = None      # anything between two GEN steps means the second one is not an identical re-run
             continue
+        if step["fault"]["mode"] != "none":
+            prev_gen = None
         pred = engine.predicted_outputs(step, sb.root, sb.cwd) if not engine.must_refuse(step) else {}
         relpred = {sb.rel(p): v for p, v in pred.items()}
         mode = step["fault"]["mode"]
@@ -261,11 +265,13 @@ def run_case(case, env):
                 _bump(probes, "compare_then_write_suppressed_a_write", nsame)
             if any(fsmodel.is_temp(p) for p in before.files):
                 _bump(probes, "runs_that_met_a_leftover_temp_file")
-            if step.get("rerun"):
+            is_rerun = bool(step.get("rerun")) and prev_gen is not None and _same_invocation(prev_gen, step) and prev_exit == 0
+            if is_rerun:
                 _bump(probes, "reruns")
-                ch = engine.diff_paths(before, after)
+                ch = [p for p in engine.diff_paths(before, after) if not (fsmodel.is_temp(p) and res.exit_status != 0)]
                 if ch:
                     add([V("untouched", "rerun:touched", "identical re-run changed %s" % ch)], si)
+            prev_gen, prev_exit = step, res.exit_status
             fps.append(cfg + "|clean|chg=%d|same=%d|exit=%s" % (nchanged, nsame, res.disposition()))
             trace.append({"step": si, "argv": engine.argv_for(step, env, "@BOX@")[3:], "fault": "none", "exit": res.disposition(),
                           "changed_outputs": nchanged})
@@ -389,6 +395,10 @@ def run_case(case, env):
     if trace:
         sample = {"history": trace[:8], "files": sorted(sb.snap().files)[:12]}
     return {"violations": viol, "stats": stats, "fingerprints": sorted(set(fps)), "sample": sample}
+
+
+def _same_invocation(a, b):
+    return all(a.get(k) == b.get(k) for k in ("sources", "O", "no_dyn", "no_lower"))
 
 
 def _oshape(o):
